@@ -31,7 +31,7 @@ ASSUMPTIONS = ["covered family: top-level structures whose members are primitive
                "mutable: see C09-stage3-mutable-union)",
                "a member that is absent from the decoded DynamicData stands for its default value (the typed sample "
                "built from it is a separate matter: known finding C39-typed-sample-none)",
-               "strings are shorter than 1 GiB; char8 values are one octet",
+               "strings are shorter than 1 GiB, the whole encoding shorter than 4 GiB; char8 values are one octet",
                "NOT covered: unions, optional members, collections, nested evolution (known findings 1-2), "
                "TryConstruct behaviours, string/sequence bounds at decode time, key-member type rules (TODO in the code)"]
 
